@@ -173,7 +173,7 @@ Proof.
   pose proof (construct_ok sf sa name argv) as Hinit.
   destruct (construct sf sa name argv) as [st amb]. cbn in Hinit.
   assert (Hrun : run_sub env o st = (SOk v, s')).
-  { destruct amb as [[ix sh]|]; [|exact H]. destruct (f_autocomplete feat); [inv H|exact H]. }
+  { destruct amb as [[ix sh]|]; [inv H|exact H]. }
   clear H. destruct Hinit as [Hw Hfull Hlog].
   destruct (exactly_once K env o st v s' Hk Hw Hfull Hrun) as (l & Hl & Hnd & Hcov & Hent & Hdead).
   assert (Hitems : items s' = items st).
